@@ -246,7 +246,10 @@ def upTmp (stem : Nat) (auto : Bool) : File := ⟨.upload, stem, if auto then .a
 
 /-- a write group that inserted data: new pack `new0` (upload name `tmp0`),
 then `autopack()` with plan `plan` (the combined pack is `new1`, upload name
-`tmp1`), else `_save_pack_names()` -/
+`tmp1`), else `_save_pack_names()`.  `Plan.error`: the planner raised after
+`finish()` + `allocate()` — the exception leaves `_commit_write_group` before
+`_save_pack_names` is reached, so only the new pack's files were written (the
+harness asserts that this plan never occurs on the real code). -/
 def commitOpsWith (chk : Bool) (d : Disk) (v : View) (plan : Plan) (tmp0 new0 tmp1 new1 : Nat) : List Op :=
   let pre := newPackOps chk (upTmp tmp0 false) new0
   let names1 := v.names ++ [new0]
@@ -255,7 +258,8 @@ def commitOpsWith (chk : Bool) (d : Disk) (v : View) (plan : Plan) (tmp0 new0 tm
   | .combine s =>
     pre ++ newPackOps chk (upTmp tmp1 true) new1
       ++ saveOps chk d ⟨names1.filter (fun n => !s.contains n) ++ [new1], v.atLoad⟩ (some s)
-  | _ => pre ++ saveOps chk d ⟨names1, v.atLoad⟩ none
+  | .error => pre
+  | .noAutopack => pre ++ saveOps chk d ⟨names1, v.atLoad⟩ none
 
 /-- `commit_write_group` with the plan computed by the real planner from the
 revision counts; `counts` = `(name, revision_count)` of every pack of the
